@@ -20,13 +20,13 @@ CLAIMS = {
              'languages from regex-syntax, pattern-typed field getters, RefCell guard liveness, data facts) or by a reviewed entry; (T) every natural loop and '
              'call-graph SCC in reach matches a ranking template whose side conditions are re-checked (iterator loops, counter loops, the '
              'three rewrite loops with the >= 2-token data premise, parser cursor loops); (S) one slot per line: split regex literal, push-per-iteration, '
-             'cursor increment. Not decided: stack exhaustion on deep nesting, allocation failure, panics inside regex/chrono/serde on documented-domain inputs.'),
+             'cursor increment. Calls to external functions outside the frozen table are obligations when their own rustdoc has a Panics clause or they are std slicing / splitting APIs; the variable-substitution loop additionally needs that a Variable token matches no field pattern (field_compare answers false for it on every path). Not decided: stack exhaustion on deep nesting, allocation failure, panics inside regex/chrono/serde on documented-domain inputs.'),
     'C02': dict(
         technique='value-DAG (gated use-def) extraction of parser ladder, fold shape, operator tables; must-pass-through on the CFG',
         ref='DESIGN.md section 5 C02',
         text='Static. Decided clauses: precedence ladder wiring and operator arrays; left fold in parse_binary; char->OperationType->arithmetic tables with operand order; '
              'guarded division; the two suffix tables agree with 1000^k; implicit + / leading 0 insertion and its guard; every peek..return Ok(non-None) path in src/syntax consumes the token; '
-             'stage order of tokinize. Not decided: independence from spacing over all strings, exact f64 results.'),
+             'stage order of tokinize. G9 a detached prefix sign negates (tabulated on positive, negative and fractional literals), variables / percentages / money get exactly one PrefixUnary wrapper, every numeric DataItem::unary negates on Minus and keeps the value on Plus. Not decided: independence from spacing over all strings, exact f64 results.'),
     'C03': dict(
         technique='dominance / who-may-write / use-def rules over MIR',
         ref='DESIGN.md section 5 C03',
@@ -48,29 +48,29 @@ CLAIMS = {
         technique='value-DAG extraction of the conversion formula (two siblings), who-may-write on the rate table, decision table of MoneyItem::calculate, data cross-checks',
         ref='DESIGN.md section 5 C06',
         text='Static. Decided clauses: convert_money and MoneyItem::convert_currency compute amount / rate(from) * rate(to); currency_rate is written only by load_from_json and update_currency with the resolved key and the rate parameter; '
-             'arithmetic table of MoneyItem::calculate (currency kept, money/money -> number, operand conversion into self\'s currency); money regex groups; read_currency alias-then-code order; alias/rate keys exist. Not decided: f64 exactness.'),
+             'arithmetic table of MoneyItem::calculate (currency kept, money/money -> number, operand conversion into self\'s currency); money regex groups; read_currency alias-then-code order; alias/rate keys exist. The scale-suffix tables of the number and money readers agree with 1000^k for every suffix (shared with C02 G5). Not decided: f64 exactness.'),
     'C07': dict(
         technique='string-provenance rule on lengths used as indices, argument-wiring and decision-table extraction (format templates decoded from MIR constants), dependence analysis of float->int casts',
         ref='DESIGN.md section 5 C07',
         text='Static, narrow. Decided clauses: N1 a length measured on one rendering is used as an index only into that rendering; N2 each of the four printers hands format_number the value, separators, digit count and flags from the fields the statement names (unit options with their documented defaults), percent prefixes %, units substitute {value}; '
              'N3 each public setter writes exactly its fields from the same-named parameters and the three per-unit options keep their names at every construction site; N4 the minus sign is pushed iff number < 0, first, and the digits are those of |number|; N5 no saturating float->int cast is applied to a magnitude-dependent value inside the formatter; '
-             'N6 the printed shape of money for each (symbol_on_left, space_between) combination; N7 grouping modulus 3 and the role / order of the two separators. Not decided: correct rounding, zero-fraction removal and grouping for all f64 values and digit counts (numerical behaviour, not reachable by this family).'),
+             'N6 the printed shape of money for each (symbol_on_left, space_between) combination; N7 grouping modulus 3 and the role / order of the two separators. N8 fract_information reports a zero fraction only under an exact == 0.0 and the fraction is printed iff (fract_part > 0 or zero fractions are kept) and a fraction exists (8 truth assignments walked on the CFG). Not decided: correct rounding, zero-fraction removal and grouping for all f64 values and digit counts (numerical behaviour, not reachable by this family).'),
     'C08': dict(
         technique='effect analysis: field-read sets + call-graph layering (non-interference by absence of reads)',
         ref='DESIGN.md section 5 C08',
         text='Static. Decided clauses: the bodies reading the separator fields are exactly the three literal readers and the four printers; no compute-layer body (calculate/get_number/unary impls, rule functions, interpreter, unit conversion) reaches one of them; '
-             'the three readers apply the same transformation in the same order. Not decided: that every literal of a convention is matched by the regexes.'),
+             'the three readers apply the same transformation in the same order. A4 sample literals with thousands groups and a fraction are accepted by the number and percent regexes in every separator convention (shared with C15). Not decided: that every literal of a convention is matched by the regexes.'),
     'C09': dict(
         technique='finite-domain tabulation of the extracted month/year step terms (month 1..12 x count 1..12) against calendar arithmetic; argument wiring; gamma decision tables; scan-shape rule over the parser registries',
         ref='DESIGN.md section 5 C09',
         text='Static. Decided clauses: D1 the year and month steps of DateItem::calculate, tabulated from their value DAGs over every (month, count) cell, equal calendar arithmetic with the day unchanged (failure classes invalid-month / wrong-year / wrong-month are separate findings); D2 small_date builds the date with the checked constructor from the fields named year / month / day, rejects None, defaults the year to the current year, and every date pattern binds day and month with accepted types; '
              'D3 A to B is the larger minus the smaller of the two stored values, for dates and for times; D4 today / tomorrow / yesterday are today +0 / +1 / -1 days and every language names them; D5 every literal parser iterates over all matches; D6 month table numbering (index+1, stored at number-1, emitted by the parser, printed from month-1); D7 the duration is split by YEAR and MONTH with exact remainders and the remainder is applied with the operation\'s own operator. '
-             'Not decided: leap days, day-of-month overflow (31 Jan + 1 month), 30-day months versus calendar months for counts given in days.'),
+             'L2 every configured month spelling is recognised by the regexes built at load time (shared with C19). Not decided: leap days, day-of-month overflow (31 Jan + 1 month), 30-day months versus calendar months for counts given in days.'),
     'C10': dict(
         technique='evaluated constants, gamma decision tables, CFG chain shape, data tables',
         ref='DESIGN.md section 5 C10',
         text='Static. Decided clauses: MINUTE..YEAR constants; duration_parse table (unit -> constructor/factor); combine_durations sums every field, calculate table; the print chain divides and reduces by the same constant in strictly descending order (sum-preserving by construction); '
-             'singular/plural tables; as_duration flooring table with matching divisor and constructor. Not decided: overflow for huge counts (C01), spelling recognition.'),
+             'singular/plural tables; as_duration flooring table with matching divisor and constructor. DU7 the pattern scan never restarts a pattern on the token that failed it (scan index only 0 / +1, never borrowed), which is what makes `D1 D2 as unit` floor the whole duration although as_duration is tried before combine_durations. Not decided: overflow for huge counts (C01), spelling recognition.'),
     'C11': dict(
         technique='call-chain signatures of the zone conversions (with the resolved time-zone type of every chrono call), unit rule at every FixedOffset constructor, finite-domain tabulation of the GMT offset formula and of as_time, who-may-call rule for the host zone, gamma tables',
         ref='DESIGN.md section 5 C11',
@@ -82,7 +82,7 @@ CLAIMS = {
         technique='exact rational arithmetic over the unit tables of config.json; gamma-expanded value DAGs of calculate_unit/convert/calculate',
         ref='DESIGN.md section 5 C12',
         text='Static. Decided clauses: K1 adjacent steps are inverse (exact rationals); K2 every step and bridge equals the definition quoted in the property; K5 all code strings are positive linear maps (K1+K5 => linear, invertible, transitive over the reals); '
-             'K4 walk shape of calculate_unit (which code, which direction, step 1) and bridge-code selection; K3 bridges connect one kind and the family searched after a bridge depends on the bridge record; K6 arithmetic table; K7 literal patterns. Not decided: f64 rounding; separator dependence (C08).'),
+             'K4 walk shape of calculate_unit (which code, which direction, step 1) and bridge-code selection; K3 bridges connect one kind and the family searched after a bridge depends on the bridge record; K6 arithmetic table; K7 literal patterns. K6 also requires that every operand entering the arithmetic under the DYNAMIC_TYPE arm is the result of convert(..); K4b the result of calculate_unit is the accumulated amount itself and convert does no arithmetic of its own. Not decided: f64 rounding; separator dependence (C08).'),
     'C13': dict(
         technique='table agreement between reader (regex classes, radix constants) and printer (format traits, cast width) from MIR constants and regex-syntax',
         ref='DESIGN.md section 5 C13',
@@ -98,7 +98,7 @@ CLAIMS = {
         text='Static, table level. Decided clauses: A1 every word of a duration format of language L is a duration word of L of the same kind and in L\'s duration word group, L configures the reading and combining rules, and the duration printer emits counts, words and blanks only; A2 each date format of L has the token-class sequence and field names of one of L\'s date patterns and month names come from L\'s month table; '
              'A3 HH:MM:SS is in the language of a time regex, zone names are in the zone regex, L has the rule that reads a time followed by a zone; A4 printed number / percent samples in every separator configuration of the quantifier are in the reader\'s regexes, the percent sign position agrees; '
              'A5 for the currencies nameable through the alias table the printed symbol is inside the CURRENCY class of a money regex with the same placement and resolves back to the same currency; A6 the word of every unit format is a word its parse patterns accept, number first; A7 based-integer prefix / digit alphabet and regex order (shared with C13). '
-             'Not decided: that the re-read value prints identically (depends on rounding, C07, and on regex competition between families).'),
+             'A8 (shared) the date reader takes the year exactly as written (C09 D2) and the number printer cuts its rendering with lengths measured on that rendering (C07 N1). Not decided: that the re-read value prints identically (depends on rounding, C07, and on regex competition between families).'),
     'C16': dict(
         technique='origin-scoped comparison rule (case normalisation of both operands), table-case data rules, argument wiring of the noise parsers, per-stage producer-order rule over the parser registries, finite enumeration of interval orderings for the claim predicate',
         ref='DESIGN.md section 5 C16',
